@@ -1,6 +1,6 @@
 SPECIFICATION Spec
 CONSTANTS
-  MaxSnaps = 3
+  MaxSnaps = 2
   MaxCrashes = 2
   MaxOk = 2
   TmpThenRename = TRUE
